@@ -53,10 +53,15 @@ def build_and_run(programs, flags=None, timeout=900, jobs=None, compiler="g++", 
 # ------------------------------------------------------------------------------------------------
 # C20: use_definitions over a product with holes
 
-def prog_use_definitions(nl, nr, holes):
+def prog_use_definitions(nl, nr, holes, form="member"):
+    """form: how a definition provides `fn` - "member" (static member function), "pointer" (constexpr
+    function pointer), "reference" (constexpr function reference)"""
     ls = ", ".join("L<%d>" % i for i in range(nl))
     rs = ", ".join("R<%d>" % i for i in range(nr))
     hole_specs = "\n".join("template<> struct definition<M, L<%d>, R<%d>> : not_defined {};" % h for h in holes)
+    fn_decl = {"member": "static int fn(A& a, B& b) { return impl_fn<A, B>(a, b); }",
+               "pointer": "static constexpr auto fn = &impl_fn<A, B>;",
+               "reference": "static constexpr int (&fn)(A&, B&) = impl_fn<A, B>;"}[form]
     return r'''
 #include <yorel/yomm2/core.hpp>
 #include <yorel/yomm2/symbols.hpp>
@@ -76,8 +81,9 @@ using M = method<key, int(virtual_<Base&>, virtual_<Base&>)>;
 template<class T> struct idx;
 template<int I> struct idx<L<I>> { static constexpr int v = I; static constexpr char side = 'L'; };
 template<int I> struct idx<R<I>> { static constexpr int v = I; static constexpr char side = 'R'; };
+template<typename A, typename B> int impl_fn(A&, B&) { return 1000 * idx<A>::v + idx<B>::v; }
 template<typename Method, typename A, typename B>
-struct definition { static int fn(A&, B&) { return 1000 * idx<A>::v + idx<B>::v; } };
+struct definition { %(fn_decl)s };
 %(holes)s
 using TL = types<%(ls)s>;
 using TR = types<%(rs)s>;
@@ -117,7 +123,7 @@ int main() {
     std::printf("\n");
     return 0;
 }
-''' % {"ls": ls, "rs": rs, "holes": hole_specs, "nl": nl, "nr": nr,
+''' % {"ls": ls, "rs": rs, "holes": hole_specs, "nl": nl, "nr": nr, "fn_decl": fn_decl,
        "lnew": ", ".join("new L<%d>" % i for i in range(nl)), "rnew": ", ".join("new R<%d>" % i for i in range(nr))}
 
 
